@@ -99,13 +99,18 @@ function parseSeg(raw) {
       seg.arg = encode(JSON.parse(m[2]));
       seg.argok = true;
     } catch {
-      seg.argok = false;
+      // safeStringify renders bigint as <digits>n
+      if (/^-?\d+n$/.test(m[2])) {
+        seg.arg = { k: "big", n: m[2].slice(0, -1) };
+        seg.argok = true;
+      } else seg.argok = false;
     }
   }
   return seg;
 }
 function encodeErrors(errs, depth = 0) {
-  if (!Array.isArray(errs)) return [{ bad: "not-array" }];
+  if (!Array.isArray(errs))
+    return [{ path: [parseSeg("<errors is not an array>")], msg: "<errors is not an array>", received: { k: "undef" }, union: false, errs: [] }];
   return errs.map((e) => ({
     path: Array.isArray(e.path) ? e.path.map((s) => parseSeg(String(s))) : [{ raw: "<no path>", idx: -1, fn: "", arg: { k: "undef" }, argok: false }],
     msg: typeof e.message === "string" ? e.message : "",
@@ -167,7 +172,7 @@ function observeProbe(parser, term, ops) {
     rec.sp = OPTS.map(({ name, o }) => {
       const input = decode(term);
       const r = { opt: name, ok: "", data: { k: "undef" }, errs: [], thrown: "", pthrown: "", pdata: { k: "undef" }, pret: false,
-                  after: { k: "undef" }, reval: "", again: { k: "undef" }, againok: "", printed: "", printed2: "" };
+                  after: { k: "undef" }, reval: "", again: { k: "undef" }, againok: "", printed: "", printed2: "", nerrs: 0 };
       r.val = tri(() => parser.validate(input, o));
       try {
         const sp = parser.safeParse(input, o);
